@@ -2,14 +2,11 @@
 (* Exhaustive check of the reference's theorems over all SHORT BYTE STRINGS over a reduced
    alphabet of interesting bytes (kinds of every class, the container markers 0/1, varint
    prefixes, a UTF-8 lead and continuation byte).  Every state is one string.
-
-   env: CODEC_MAXLEN (4 quick / 5 thorough), CODEC_ALPHA = "24" | "16" *)
+ *)
 EXTENDS ValueCodec, TLC, IOUtils
 
-MaxLen == atoi(IOEnv.CODEC_MAXLEN)
-Alphabet == IF IOEnv.CODEC_ALPHA = "16"
-            THEN {0, 1, 2, 5, 13, 17, 18, 27, 29, 39, 40, 43, 44, 53, 65, 252}
-            ELSE {0, 1, 2, 3, 13, 14, 17, 18, 19, 27, 29, 39, 40, 41, 43, 44, 45, 53, 55, 65, 66, 195, 252, 255}
+\* MaxLen: 4 quick / 5 thorough; Alphabet: the reduced alphabet (set in the .cfg)
+CONSTANTS MaxLen, Alphabet
 
 VARIABLE s
 Init == s = <<>>
